@@ -460,6 +460,10 @@ func Run(j *job.Job, s *job.Sink) {
 		// two modules; the second one has an import of its own, which lies next to it. The run
 		// that fetches the file links both, so a second run changes nothing.
 		if r.Intn(12) == 0 {
+			// (the file also brings a newer revision of a module that a user, linked before
+			// the fetch, imports: the run that fetches it binds the user to it)
+			ops = append(ops, op{"load", "zztwobase.yang", "module zztwobase {\n  namespace \"urn:zztwobase\";\n  prefix zb;\n  revision 2019-01-01;\n  typedef t { type int8; }\n}\n"},
+				op{"load", "zzt0user.yang", "module zzt0user {\n  namespace \"urn:zzt0user\";\n  prefix zu;\n  import zztwobase { prefix zb; }\n  leaf l { type zb:t; }\n}\n"})
 			ops = append(ops, op{"goodreadtwo", "zztwomain.yang", "module zztwomain {\n  namespace \"urn:zztwomain\";\n  prefix zt;\n  import zzpair { prefix zp; }\n  leaf l { type zp:t; }\n}\n"}, op{Kind: "process"}, op{Kind: "process"}, op{Kind: "read"})
 			s.Count("histories_with_a_fetched_file_that_holds_two_modules", 1)
 		}
@@ -617,7 +621,7 @@ func Run(j *job.Job, s *job.Sink) {
 						continue
 					}
 					os.WriteFile(filepath.Join(dir, o.Name), []byte(o.Text), 0o644)
-					os.WriteFile(filepath.Join(dir, "zzpair.yang"), []byte("module zzpair {\n  namespace \"urn:zzpair\";\n  prefix zp;\n  typedef t { type int8; }\n}\nmodule zzpairb {\n  namespace \"urn:zzpairb\";\n  prefix zpb;\n  import zzw { prefix w; }\n  leaf x { type w:wt; }\n}\n"), 0o644)
+					os.WriteFile(filepath.Join(dir, "zzpair.yang"), []byte("module zzpair {\n  namespace \"urn:zzpair\";\n  prefix zp;\n  typedef t { type int8; }\n}\nmodule zzpairb {\n  namespace \"urn:zzpairb\";\n  prefix zpb;\n  import zzw { prefix w; }\n  leaf x { type w:wt; }\n}\nmodule zztwobase {\n  namespace \"urn:zztwobase\";\n  prefix zb;\n  revision 2020-01-01;\n  typedef t { type int16; }\n}\n"), 0o644)
 					os.WriteFile(filepath.Join(dir, "zzw.yang"), []byte("module zzw {\n  namespace \"urn:zzw\";\n  prefix zw;\n  typedef wt { type uint32; }\n}\n"), 0o644)
 					defer os.RemoveAll(dir)
 					if err := ms.Read(filepath.Join(dir, o.Name)); err != nil {
